@@ -7,4 +7,10 @@ mkdir -p "$DEST"
 git -C "$WT" diff -- src > "$DEST/patch.diff"
 cp "$WT/demo.py" "$DEST/demo.py"
 cp "$WT/meta.json" "$DEST/meta.json" 2>/dev/null || echo '{}' > "$DEST/meta.json"
+/venv/bin/python - "/meta.json" "7cf6603994d6777f256387b7084346f818a57370" <<'PY'
+import json, sys
+meta = json.load(open(sys.argv[1], encoding="utf-8"))
+meta["base"] = sys.argv[2]
+json.dump(meta, open(sys.argv[1], "w", encoding="utf-8"), ensure_ascii=False, indent=1)
+PY
 echo "collected $(grep -c '^diff' "$DEST/patch.diff") file diff(s):"; grep '^diff' "$DEST/patch.diff"
